@@ -149,6 +149,12 @@ deep_Configs == c04_Configs \cup c18_Configs \cup c08_Configs \cup c10_Configs \
 deep_Requests == c01_Requests \cup c02_Requests \cup c03_Requests \cup c04_Requests \cup c05_Requests \cup c09_Requests
                  \cup c10_Requests \cup c14_Requests \cup c18_Requests \cup c08_Requests
 
+\* ---- C03 / C01 with max_age: workers expire in the periodic check (0.8 s; checks every 0.4 s)
+Wage(nm, np, G, age) == W0(nm, np, G, 0) @@ [mage |-> age]
+c03age_Configs == { Mixed(D(4, 0, <<Wage("w1", 2, 1, 8)>>)), Mixed(D(4, 0, <<Wage("w1", 1, 2, 8), W0("w2", 1, 1, 0)>>)) }
+c03age_Requests == { Rq("stop", "w1", TRUE), [Rq("kill", "w1", FALSE) EXCEPT !.G = 0], Rq("decr", "w1", FALSE),
+                     Rq("restart", "w1", FALSE), Rq("status", "w1", FALSE) }
+
 st_one == {256}
 st_exit == {0, 256, 65280}
 st_sig  == {15, 9, 11}
